@@ -163,30 +163,54 @@ func famCodec(w *World) {
 	case 0: // thrift application headers both ways
 		tc := thrift.NewClient(cli.Ch, srv.Service, &thrift.ClientOptions{HostPort: target})
 		client := gen.NewTChanSimpleServiceClient(tc)
-		for i := 0; i < n; i++ {
-			tag := fmt.Sprintf("t%d", i)
-			reqH, respH := drawHeaders(tag+"q"), drawHeaders(tag+"r")
-			svc.respHdr[tag] = respH
-			ctx, cancel := thrift.NewContext(10 * time.Second)
-			tctx := thrift.WithHeaders(ctx, reqH)
-			res, err := client.Call(tctx, &gen.Data{B1: true, S2: tag, I3: int32(i)})
-			cancel()
-			w.probe("ops.done")
-			w.eval("C18.thrift-headers")
-			if err != nil {
-				w.violate("C18", "thrift-call-failed", "thrift call %s with %s failed: %v", tag, mapDesc(reqH), err)
-				continue
-			}
-			if res.S2 != tag+"/resp" || res.I3 != int32(i)+1 || res.B1 {
-				w.violate("C18", "thrift-body", "thrift call %s: result %+v", tag, res)
-			}
-			if !sameMap(svc.seenHdr[tag], reqH) {
-				w.violate("C18", "thrift-request-headers", "thrift call %s: handler saw %s, caller attached %s", tag, mapDesc(svc.seenHdr[tag]), mapDesc(reqH))
-			}
-			if !sameMap(tctx.ResponseHeaders(), respH) {
-				w.violate("C18", "thrift-response-headers", "thrift call %s: caller saw response headers %s, handler set %s", tag, mapDesc(tctx.ResponseHeaders()), mapDesc(respH))
-			}
+		// the calls run from several application goroutines at once (header blocks of
+		// different calls are then decoded in overlapping time, on both sides); calls
+		// without any header alternate with calls carrying many
+		if scnChance(1, 2) {
+			n += scn(8)
 		}
+		lanes := 1 + scn(4)
+		var fs []func()
+		for lane := 0; lane < lanes; lane++ {
+			lane := lane
+			type one struct {
+				i           int
+				tag         string
+				reqH, respH map[string]string
+			}
+			var mine []one
+			for i := lane; i < n; i += lanes {
+				tag := fmt.Sprintf("t%d", i)
+				reqH, respH := drawHeaders(tag+"q"), drawHeaders(tag+"r")
+				svc.respHdr[tag] = respH
+				mine = append(mine, one{i, tag, reqH, respH})
+			}
+			fs = append(fs, func() {
+				for _, c := range mine {
+					i, tag, reqH, respH := c.i, c.tag, c.reqH, c.respH
+					ctx, cancel := thrift.NewContext(10 * time.Second)
+					tctx := thrift.WithHeaders(ctx, reqH)
+					res, err := client.Call(tctx, &gen.Data{B1: true, S2: tag, I3: int32(i)})
+					cancel()
+					w.probe("ops.done")
+					w.eval("C18.thrift-headers")
+					if err != nil {
+						w.violate("C18", "thrift-call-failed", "thrift call %s with %s failed: %v", tag, mapDesc(reqH), err)
+						continue
+					}
+					if res.S2 != tag+"/resp" || res.I3 != int32(i)+1 || res.B1 {
+						w.violate("C18", "thrift-body", "thrift call %s: result %+v", tag, res)
+					}
+					if !sameMap(svc.seenHdr[tag], reqH) {
+						w.violate("C18", "thrift-request-headers", "thrift call %s: handler saw %s, caller attached %s", tag, mapDesc(svc.seenHdr[tag]), mapDesc(reqH))
+					}
+					if !sameMap(tctx.ResponseHeaders(), respH) {
+						w.violate("C18", "thrift-response-headers", "thrift call %s: caller saw response headers %s, handler set %s", tag, mapDesc(tctx.ResponseHeaders()), mapDesc(respH))
+					}
+				}
+			})
+		}
+		w.tasks(fs...)
 		if spy != nil {
 			w.checkIterator(spy)
 		}
